@@ -308,11 +308,15 @@ func (m *impl) step(t []string) string {
 		if s == nil {
 			return "bad-handle"
 		}
-		if s.isDir && s.stale {
-			return "skip" // directory reads after a namespace change are unspecified
+		if s.isDir && !s.fresh && s.stale {
+			// continuing an earlier listing after the namespace changed: unspecified
+			return "skip"
 		}
 		fresh := s.fresh
 		s.fresh = false
+		if fresh {
+			s.stale = false // from now on "stale" means: changed since the first Readdir
+		}
 		fis, err := s.f.Readdir(c)
 		if err == io.EOF {
 			return "eof"
@@ -414,6 +418,13 @@ func exec(ops []string, o *vu.Out) {
 			continue
 		}
 		// pre-state, for the classification of a divergence
+		// first Readdir on a directory handle opened before the namespace changed?
+		snapshotRead := false
+		if t[0] == "readdir" && len(t) == 3 {
+			if sl, ok := m.slotOf(t[1]); ok && sl != nil {
+				snapshotRead = sl.isDir && sl.fresh && sl.stale
+			}
+		}
 		var pre map[string]string
 		if shadow != nil && !diverged && (t[0] == "open" || t[0] == "rename") {
 			pre = map[string]string{}
@@ -465,6 +476,9 @@ func exec(ops []string, o *vu.Out) {
 		}
 		diverged = true
 		sig := classify(t, m, func(p string) string { return pre[p] })
+		if snapshotRead {
+			sig = "readdir-open-time-snapshot"
+		}
 		o.Stat("diverge:" + sig)
 		if strings.HasPrefix(sig, "allowed:") {
 			continue
